@@ -247,6 +247,28 @@ where
             let found_any = res_vec.into_iter().any(|f| f.1);
             (ConvertResult { expr, found_any }, errs.concat())
         }
+        Expr::ImcompleteRecord(fields) => {
+            let (res_vec, errs): (Vec<_>, Vec<_>) = fields
+                .into_iter()
+                .map(|f| {
+                    let (res, errs) = conversion(f.expr);
+                    (
+                        (
+                            RecordField {
+                                name: f.name,
+                                expr: res.expr,
+                            },
+                            res.found_any,
+                        ),
+                        errs,
+                    )
+                })
+                .unzip();
+            let expr = Expr::ImcompleteRecord(res_vec.clone().into_iter().map(|e| e.0).collect())
+                .into_id(loc);
+            let found_any = res_vec.into_iter().any(|f| f.1);
+            (ConvertResult { expr, found_any }, errs.concat())
+        }
         Expr::RecordUpdate(_record, _fields) => {
             // RecordUpdate should not exist at this stage - it should have been expanded earlier
             unreachable!("RecordUpdate should have been expanded in convert_operators")
